@@ -486,7 +486,35 @@ class CausalInference(object):
         [1] Perkovic, Emilija, et al. "Complete graphical characterization and construction of adjustment sets in Markov equivalence classes of ancestral graphs." The Journal of Machine Learning Research 18.1 (2017): 8132-8193.
         """
         backdoor_graph = self.get_proper_backdoor_graph([X], [Y], inplace=False)
-        return backdoor_graph.minimal_dseparator(X, Y)
+        adjustment_set = backdoor_graph.minimal_dseparator(X, Y)
+        if adjustment_set is None:
+            return None
+
+        # Nodes on a causal path from X to Y and their descendants can not be
+        # adjusted for.
+        forbidden = {X}
+        for path in nx.all_simple_paths(self.model, X, Y):
+            for node in path[1:]:
+                forbidden.add(node)
+                forbidden.update(nx.descendants(self.model, node))
+        if not adjustment_set.intersection(forbidden):
+            return adjustment_set
+
+        # The separator found uses such a node: start again from all admissible
+        # ancestors of X and Y, which separate X and Y in the proper back-door
+        # graph whenever some valid adjustment set exists, and shrink that set.
+        candidates = (
+            self.model._get_ancestors_of([X, Y])
+            - forbidden
+            - {Y}
+            - set(self.model.latents)
+        )
+        if backdoor_graph.is_dconnected(X, Y, observed=candidates):
+            return None
+        for node in list(candidates):
+            if not backdoor_graph.is_dconnected(X, Y, observed=candidates - {node}):
+                candidates.remove(node)
+        return candidates
 
     def query(
         self,
